@@ -206,7 +206,7 @@ def run(ctx) -> None:
     ctx.section("promote", _promote, ctx, tags_all)
     ctx.section("infer-kind", _infer_kind, ctx, tags_all)
     ctx.rule("d.result-sites", "results of arithmetic, joins, aggregate, window, broadcasting and CSV parsing are constructed "
-                               "with NO dtype or with infer_dtype(<the very data stored>): they are typed by the same rule", 40)
+                               "with NO dtype or with infer_dtype(<the very data stored>): they are typed by the same rule", 20)
     ctx.section("result-sites", _result_sites, ctx)
     ctx.rule("e.assignment-promotion", "promotion on in-place assignment (the running target of Vector.__setitem__) never "
                                        "narrows and never drops nullability, for every (dtype, target, value type) cell", 200)
